@@ -43,21 +43,24 @@ Definition keys_exist (s : state) (d : Z) (ks : list string) : string -> bool :=
     | None => false
     end.
 
-(** [getExpiry] *)
+(** [getExpiry]: an expired key has no deadline to report. *)
 Definition get_expiry (s : state) (d : Z) (k : string) : option Z :=
-  match get_db s d !! k with Some e => e_dl e | None => None end.
+  match get_db s d !! k with
+  | Some e => if expired (st_now s) e then None else e_dl e
+  | None => None
+  end.
 
-(** [deleteKey]: subtracts the size of whatever is (or is not) stored, removes the entry and its
-    volatile-index record. *)
+(** [deleteKey]: subtracts the size of the entry, removes it and its volatile-index record; nothing
+    happens for a key that is not there. *)
 Definition delete_key (s : state) (d : Z) (k : string) : state :=
   let db := get_db s d in
-  let m := match db !! k with
-           | Some e => entry_mem k e
-           | None => sz_time + key_overhead k
-           end in
-  s <| st_mem := st_mem s - m |>
-    <| st_dbs := <[d := delete k db]> (st_dbs s) |>
-    <| st_vol := <[d := filter (fun x => negb (String.eqb x k)) (get_vol s d)]> (st_vol s) |>.
+  match db !! k with
+  | None => s
+  | Some e =>
+      s <| st_mem := st_mem s - entry_mem k e |>
+        <| st_dbs := <[d := delete k db]> (st_dbs s) |>
+        <| st_vol := <[d := filter (fun x => negb (String.eqb x k)) (get_vol s d)]> (st_vol s) |>
+  end.
 
 (** [getValues]: lazily deletes expired keys it meets; absent / expired keys read as [None]. *)
 Fixpoint get_values_go (s : state) (d : Z) (ks : list string) (acc : list (string * option value))
@@ -113,13 +116,21 @@ Definition set_values (s : state) (d : Z) (kvs : list (string * value)) : state 
   if max_memory_exceeded s && st_noevict s then (s, false)
   else (fold_left (fun s '(k, v) => set_value1 s d k v) (dedupe_last kvs) s, true).
 
-(** [setExpiry]: rewrites the entry with the given deadline and records the key in the volatile index. *)
+(** [setExpiry]: only for a key that is there and has not expired; rewrites the entry with the given
+    deadline; the volatile index gains the key when a deadline is set and loses it when removed. *)
 Definition set_expiry (s : state) (d : Z) (k : string) (t : option Z) : state :=
   let db := get_db s d in
-  let v := match db !! k with Some e => e_val e | None => VNil end in
-  let vol := get_vol s d in
-  s <| st_dbs := <[d := <[k := Entry v t]> db]> (st_dbs s) |>
-    <| st_vol := <[d := if str_in k vol then vol else vol ++ [k]]> (st_vol s) |>.
+  match db !! k with
+  | None => s
+  | Some e =>
+      if expired (st_now s) e then s else
+      let vol := get_vol s d in
+      s <| st_dbs := <[d := <[k := Entry (e_val e) t]> db]> (st_dbs s) |>
+        <| st_vol := <[d := match t with
+                            | None => filter (fun x => negb (String.eqb x k)) vol
+                            | Some _ => if str_in k vol then vol else vol ++ [k]
+                            end]> (st_vol s) |>
+  end.
 
 (** [Flush]: one database, or all of them for [-1]. *)
 Definition flush_db (s : state) (d : Z) : state :=
